@@ -1391,7 +1391,16 @@ def _exp1(x):
     if is_sv(x):
         t = E._toreal(x.t)
         r = SV(E.uf('EXP', E.R, E.R)(t))
-        E.cur().assume(r > 0)
+        eng = E.cur()
+        eng.assume(r > 0)
+        if getattr(eng, 'lemmas', False):
+            # exp is monotone and exp(0) = 1
+            if eng.proves(t <= 0):
+                eng.assume(r <= 1)
+            if eng.proves(t >= 0):
+                eng.assume(r >= 1)
+            if eng.proves(t == 0):
+                eng.assume(r == 1)
         return r
     x = float(x)
     if x != x:
